@@ -312,4 +312,23 @@ def gen_program(rng, size=3):
         if x.startswith("g"):
             forms.append("(set! %s %s)" % (x, gen_int(c, 1)))
             forms.append(x)
+    # a global procedure assigned a procedure with another parameter list: later calls with the ORIGINAL operand count
+    # must see the new procedure (rest parameter collected, arity mismatch reported), also from procedures compiled
+    # before the assignment
+    fixed = [(f, ar) for (f, ar, rest) in c.fns if not rest and ar >= 1 and not f.startswith("h")]
+    if fixed and rng.random() < 0.35:
+        c.features.add("procedure-reassigned")
+        f, ar = rng.choice(fixed)
+        caller = c.fresh("k")
+        args = " ".join(str(rng.randint(1, 9)) for _ in range(ar))
+        forms.append("(define (%s) (%s %s))" % (caller, f, args))
+        shape = rng.choice(["rest", "more", "fewer"])
+        if shape == "rest":
+            forms.append("(set! %s (lambda (x . r) (list 'rest x r)))" % f)
+        elif shape == "more":
+            forms.append("(set! %s (lambda (%s) (list 'more %s)))" % (f, " ".join("p%d" % i for i in range(ar + 1)), "p0"))
+        else:
+            forms.append("(set! %s (lambda (%s) (list 'fewer)))" % (f, " ".join("p%d" % i for i in range(ar - 1))))
+        forms.append("(with-handler (lambda (e) 'arity-error) (%s %s))" % (f, args))
+        forms.append("(with-handler (lambda (e) 'arity-error) (%s))" % caller)
     return "\n".join(forms), set(c.features)
